@@ -1,6 +1,6 @@
 (* Main.v -- dispatch of one protocol line to the stream runners.
    To add a stream: import its Run file and add its (keyword, runner) pairs. *)
-From RW Require Import Base.Bytes Run.Wire Run.RunCodec Run.RunSeg Run.RunWal Run.RunMig Run.RunFs Run.RunHist.
+From RW Require Import Base.Bytes Run.Wire Run.RunCodec Run.RunSeg Run.RunWal Run.RunMig Run.RunFs Run.RunHist Run.RunRdm Run.RunVfy Run.RunConc.
 Open Scope N_scope.
 
 Definition handlers : list (str * (list str -> str)) :=
@@ -12,7 +12,11 @@ Definition handlers : list (str * (list str -> str)) :=
     ([115; 116; 98], run_stb);     (* "stb" *)
     ([102; 115; 116], run_fst);    (* "fst" *)
     ([102; 115; 111], run_fso);    (* "fso" *)
-    ([104; 105; 115; 116], run_hist) (* "hist" *)
+    ([104; 105; 115; 116], run_hist); (* "hist" *)
+    ([102; 104; 105; 115; 116], run_fhist); (* "fhist" *)
+    ([114; 100; 109], run_rdm);     (* "rdm" *)
+    ([118; 102; 121], run_vfy);     (* "vfy" *)
+    ([115; 99; 104; 101; 100], run_sched) (* "sched" *)
   ].
 
 Fixpoint dispatch (hs : list (str * (list str -> str))) (cmd : str) (args : list str) : str :=
